@@ -1,5 +1,8 @@
 //! Shared spec tables (written from PS3.5, not copied from the code) and helpers.
-use dicom_core::VR;
+//! Included by the harness crate and by in-module harnesses; the includer provides
+//! `dc` = the dicom-core crate (`use dicom_core as dc;` or `use crate as dc;`).
+#![allow(dead_code, unused_imports)]
+use super::dc::VR;
 
 /// Stub for `Backtrace::force_capture` (rule 1 of DESIGN.md section 2).
 pub fn no_bt() -> std::backtrace::Backtrace {
@@ -133,8 +136,8 @@ pub fn spec_item(ts: Ts, element: u16, len: u32) -> [u8; 8] {
 // Symbolic data dictionary: the callee behind `D: DataDictionary` is
 // represented by its contract only — it answers one (arbitrary, fixed)
 // `Option<entry>` for the tag that is looked up.
-use dicom_core::dictionary::{DataDictionary, DataDictionaryEntryRef, TagRange, VirtualVr};
-use dicom_core::Tag;
+use super::dc::dictionary::{DataDictionary, DataDictionaryEntryRef, TagRange, VirtualVr};
+use super::dc::Tag;
 
 pub struct SymDict {
     pub entry: Option<DataDictionaryEntryRef<'static>>,
